@@ -12,7 +12,8 @@
 (*        bag entries (and whether one has the value None, whether one is  *)
 (*        stored under the unnamed key None) or the shape of               *)
 (*        the value slot (absent / none / scalar / EMPTY array / array /   *)
-(*        object / array of objects); the harness copies and mutates at    *)
+(*        object / array of objects / datetime value, by value);           *)
+(*        the harness copies and mutates at                                *)
 (*        least one object of every (kind, shape) class                    *)
 (* The harness builds real objects from the nodes; every observed vector   *)
 (* goes back to TLC (CimEqTrace) for the verdict.                          *)
@@ -33,19 +34,35 @@ SlotShape(g) ==
   IF g = <<>> THEN "absent"
   ELSE LET v == g[1].n IN
        IF v.k = "S" THEN (IF IsNone(v) THEN "none" ELSE "scalar")
+       ELSE IF v.k = "DateTime" THEN "datetime:" \o v.at[5]
        ELSE IF v.k = "L"
        THEN (IF v.ch[1] = <<>> THEN "empty-array"
-             ELSE IF v.ch[1][1].n.k \in {"S", "DateTime"} THEN "array"
+             ELSE IF v.ch[1][1].n.k = "DateTime"
+             THEN "array-of-datetime:" \o v.ch[1][1].n.at[5]
+             ELSE IF v.ch[1][1].n.k = "S" THEN "array"
              ELSE "array-of-objects")
        ELSE "object"
+RECURSIVE DeepDt(_), DeepDtG(_, _, _)
+DeepDt(n) ==      \* text of the first datetime value held at or below n, or ""
+  IF n.k = "DateTime" THEN n.at[5] ELSE DeepDtG(n, 1, 1)
+DeepDtG(n, g, i) ==
+  IF g > Len(n.ch) THEN ""
+  ELSE IF i > Len(n.ch[g]) THEN DeepDtG(n, g + 1, 1)
+  ELSE LET x == DeepDt(n.ch[g][i].n) IN
+       IF x # "" THEN x ELSE DeepDtG(n, g, i + 1)
 BagShape(g) ==
   ToString(Len(g)) \o (IF \E i \in 1..Len(g) : IsNone(g[i].n)
                         THEN "+none" ELSE "")
                   \o (IF \E i \in 1..Len(g) : g[i].key = NoName
                         THEN "+unnamed" ELSE "")
+(* a CIMDateTime is an immutable leaf: its own class is the value itself   *)
+(* (every datetime of the universe, in particular every field-boundary     *)
+(* class, is copied every way, stand-alone and inside each holder)         *)
 CopyShape(n) ==
-  [g \in 1..Len(n.ch) |->
-     IF IsBag(n.k, g) THEN BagShape(n.ch[g]) ELSE SlotShape(n.ch[g])]
+  IF n.k = "DateTime" THEN <<n.at[5]>>
+  ELSE [g \in 1..Len(n.ch) |->
+          IF IsBag(n.k, g) THEN BagShape(n.ch[g]) ELSE SlotShape(n.ch[g])]
+       \o (IF DeepDt(n) = "" THEN <<>> ELSE <<"holds " \o DeepDt(n)>>)
 
 Emit(k) ==
   LET s == SetToSeq(U(k))
